@@ -284,6 +284,31 @@ _host = {}
 TWIN = {"A.G1": "A.C1", "A.C2": "A.G2", "A.U3^A": "A.A3^A", "B.5MC4": "B.PSU4"}
 
 
+def host_labels():
+    """The host structure as an mmCIF file whose label numbering is shifted against the author numbering while the chain identifiers coincide, plus a fifth
+    residue A.G7 whose LABEL identity (chain A, number 1, G) equals the AUTHOR identity of A.G1: DSSR names are author names."""
+    if "l" not in _host:
+        from rnapolis.parser import read_3d_structure
+
+        items = ["group_PDB", "id", "type_symbol", "label_atom_id", "label_alt_id", "label_comp_id", "label_asym_id", "label_entity_id", "label_seq_id", "pdbx_PDB_ins_code",
+                 "Cartn_x", "Cartn_y", "Cartn_z", "occupancy", "B_iso_or_equiv", "auth_seq_id", "auth_comp_id", "auth_asym_id", "auth_atom_id", "pdbx_PDB_model_num"]
+        rows = []
+        k = 1
+        # (name, chain, author number, insertion code, label number)
+        for resn, chain, num, icode, lnum in (("G", "A", 1, "?", 5), ("C", "A", 2, "?", 7), ("U", "A", 3, "A", 2), ("5MC", "B", 4, "?", 1), ("G", "A", 7, "?", 1)):
+            for an in ("P", "C1'", "N1"):
+                q = '"%s"' % an if "'" in an else an
+                rows.append(["ATOM", str(k), an[0], q, ".", resn, chain, "1", str(lnum), icode, "%.3f" % float(k), "0.000", "0.000", "1.00", "0.00", str(num), resn, chain, q, "1"])
+                k += 1
+        text = "data_host\n#\nloop_\n" + "".join("_atom_site.%s\n" % i for i in items) + "".join(" ".join(r) + "\n" for r in rows) + "#\n"
+        path = os.path.join(scratch_dir(), "host-labels.cif")
+        with open(path, "w") as f:
+            f.write(text)
+        with open(path) as f:
+            _host["l"] = read_3d_structure(f, None)
+    return _host["l"]
+
+
 def host(twin=False):
     """The host structure; its twin has the same chains, numbers and insertion codes but other residue names (what a second input file looks like
     to anything that remembers residues by position)."""
@@ -327,11 +352,11 @@ def host(twin=False):
     return _host["s"]
 
 
-def run_dssr(case, twin=False):
+def run_dssr(case, twin=False, labels=False):
     from rnapolis.adapter import parse_dssr_output
 
     out = []
-    s = host(twin)
+    s = host_labels() if labels else host(twin)
     if twin:
         known = set(TWIN.values())
         tr = lambda n: n if n is None else ":".join(n.split(":")[:-1] + [TWIN.get(n.split(":")[-1], n.split(":")[-1])])
@@ -397,7 +422,12 @@ def run_dssr(case, twin=False):
             out.append(viol("dssr-stacks-differ", "imported DSSR stackings differ", got_stacks, want_stacks))
     if bi.baseRiboseInteractions or bi.basePhosphateInteractions or bi.otherInteractions:
         out.append(viol("dssr-invented-kinds", "DSSR import produced other interaction kinds", None, None))
-    if not twin and wrap == "plain" and len(d["pairs"]) == 1:
+    if not twin and not labels and wrap == "plain" and len(d["pairs"]) <= 1:
+        # the same document against the same residues read from an mmCIF file whose label numbering is shifted against the author numbering
+        r3 = run_dssr(case, labels=True)
+        for v in r3["violations"]:
+            out.append(dict(v, signature=v["signature"] + ":label-shifted-structure", message="(mmCIF host, label numbers shifted against author numbers) " + v["message"]))
+    if not twin and not labels and wrap == "plain" and len(d["pairs"]) == 1:
         # the same document, names translated, against the twin structure - in the same process, alternating with the host
         r2 = run_dssr(case, twin=True)
         for v in r2["violations"]:
